@@ -20,7 +20,13 @@ if SRC not in sys.path:
     sys.path.insert(0, SRC)
 
 warnings.simplefilter("ignore")
-logging.disable(logging.CRITICAL)  # the parsers format a traceback into a log record for every rejected string
+if int(os.environ.get("VERIF_SHARD", "0") or 0) % 4 == 3:
+    # every fourth shard runs with logging switched on at DEBUG level (a legal configuration of the host application):
+    # all log records are created - a log call that fails for some input fails here - but a NullHandler discards them
+    logging.getLogger().addHandler(logging.NullHandler())
+    logging.getLogger().setLevel(logging.DEBUG)
+else:
+    logging.disable(logging.CRITICAL)  # the parsers put a traceback into a log record for every rejected string
 
 # the package has an import cycle that only resolves in this order
 import ahbicht.content_evaluation  # noqa: E402  pylint:disable=wrong-import-position
@@ -145,7 +151,54 @@ def configure(providers, data_provider=None):
     inject.clear_and_configure(_configure)
 
 
-def setup_hardcoded(cer: ContentEvaluationResult):
+def configure_single_set(providers, data_provider=None):
+    """
+    A user-defined TokenLogicProvider that holds exactly one evaluator / provider / resolver of each kind and hands it
+    out whatever format is asked for (the base class documents that for the case that only one is available); the
+    four objects need not have any format set (create_hardcoded_evaluators(cer) without format arguments builds such).
+    """
+    by_kind = {}
+    from ahbicht.content_evaluation.fc_evaluators import FcEvaluator
+    from ahbicht.content_evaluation.rc_evaluators import RcEvaluator
+    from ahbicht.expressions.hints_provider import HintsProvider
+    from ahbicht.expressions.package_expansion import PackageResolver
+
+    for provider in providers:
+        for kind in (RcEvaluator, FcEvaluator, HintsProvider, PackageResolver):
+            if isinstance(provider, kind):
+                by_kind[kind] = provider
+
+    class SingleSet(TokenLogicProvider):
+        def get_rc_evaluator(self, edifact_format=None, format_version=None):
+            return by_kind[RcEvaluator]
+
+        def get_fc_evaluator(self, edifact_format=None, format_version=None):
+            return by_kind[FcEvaluator]
+
+        def get_hints_provider(self, edifact_format=None, format_version=None):
+            return by_kind[HintsProvider]
+
+        def get_package_resolver(self, edifact_format=None, format_version=None):
+            return by_kind[PackageResolver]
+
+    if data_provider is None:
+        data_provider = evaluatable_data
+
+    def _configure(binder):
+        binder.bind(TokenLogicProvider, SingleSet())
+        binder.bind_to_provider(EvaluatableDataProvider, data_provider)
+
+    inject.clear_and_configure(_configure)
+
+
+def setup_hardcoded(cer: ContentEvaluationResult, formatless=False):
+    if formatless:
+        configure_single_set(create_hardcoded_evaluators(cer))
+        return
+    _setup_hardcoded(cer)
+
+
+def _setup_hardcoded(cer: ContentEvaluationResult):
     """dict based evaluators, as created by ahbicht's own factory"""
     configure(create_hardcoded_evaluators(cer, FMT, VER))
 
